@@ -98,6 +98,20 @@ def bagDiscipline : Discipline (List Int) where
   push_ge w x := by simp
   pop_lt w h := by simp only [List.length_drop]; omega
 
+/-- a stack: push in front, pop from the front.  With `next` = the successors in REVERSE order,
+`closureLoop lifoDiscipline` marks the nodes in exactly the pre-order of the recursive visited-set DFS
+of `PathFinder.reconstruct_define_use_path` (mark on entry, recurse into the successors in order),
+minus its early exit at the sink; the early exit only shortens the run, so `C13_closure_bound`
+bounds the real search: at most `1 + |E|` stack pops, every node expanded at most once. -/
+def lifoDiscipline : Discipline (List Int) where
+  size w := w.length
+  peek w := w.headD 0
+  push w x := x :: w
+  pop w := w.drop 1
+  push_le w x := by simp
+  push_ge w x := by simp
+  pop_lt w h := by simp only [List.length_drop]; omega
+
 /-! ### `summarize_symbol_decls`: a faithful copy of its closure loops
 
 `avail` is `scope_id_to_available_scope_ids` as an insertion-ordered association list (key =
